@@ -54,6 +54,11 @@ theorem C05_closure_release_never_waits_for_a_running_closure :
     Skeleton.current.clInvokeOutsideLock = true ∧ Skeleton.current.clLockIsMutex = true ∧
     Skeleton.current.clDeleteUnderLock = true ∧ Skeleton.current.clLookupUnderLock = true := by decide
 
+/-- `utils.Call` is one reflect call under a deferred recover: nothing in it can wait and it touches no
+    package-level state (checked against the regenerated skeleton) — handlers nest `utils.Call` (a handler
+    invoking a closure), so anything acquired there and held across the call could exhaust and deadlock. -/
+theorem C05_reflect_call_never_waits : Skeleton.current.ucNoWaiting = true ∧ Skeleton.current.stateGlobals = [] := by decide
+
 end Panrpc.Ep
 
 #print axioms Panrpc.Ep.C05_closure_release_never_waits_for_a_running_closure
@@ -62,3 +67,4 @@ end Panrpc.Ep
 #print axioms Panrpc.Ep.C05_projects_to_broadcaster
 #print axioms Panrpc.Ep.C05_lock_never_held_across_select
 #print axioms Panrpc.Ep.C05_fails_on_pinned
+#print axioms Panrpc.Ep.C05_reflect_call_never_waits
